@@ -102,6 +102,9 @@ SOURCES = (
     ("path", "path-shrink", '{"A", "As", "B"}', '{"pem", "nokey", "foreign"}', "{}"),
     # http source: broken files, files the server does not have / fails on, and an unavailable listing
     ("http", "http", '{"A", "As", "B"}', '{"pem", "nokey", "file404", "file500"}', '{"list404", "list500", "listgarbage", "down"}'),
+    # consul source (real ConsulSource against a fake of the KV list endpoint with blocking queries): "same" is a
+    # re-upload of identical files (the index moves), As a certificate whose keys were deleted, kv500 a store without leader
+    ("consul", "consul", '{"A", "As", "B"}', '{"pem", "nokey", "foreign"}', '{"kv500"}'),
 )
 
 
@@ -109,7 +112,7 @@ def generate_sources(ctx):
     """complete histories for the real sources: all of `loads` loads, sampled by seed down to `cap` per universe"""
     loads, cap = ctx.pick((3, 90), (3, 100000))
     rnd = random.Random(ctx.seed)
-    out = {"path": os.path.join(ctx.tmp, "c11.src.path"), "http": os.path.join(ctx.tmp, "c11.src.http")}
+    out = {k: os.path.join(ctx.tmp, "c11.src." + k) for k in ("path", "http", "consul")}
     counts = {}
     for source, name, good, unusable, failing in SOURCES:
         runs = [(loads, cap)]
@@ -126,7 +129,7 @@ def generate_sources(ctx):
             # intact, and while NOTHING is published yet the statement does not forbid serving them.
             lines = [l for l in open(tmp).read().splitlines() if json.loads(l)["hist"][0]["kind"] == "good"]
             total = len(lines)
-            if len(lines) > c:
+            if len(lines) > c and source != "consul":     # the consul source has no poll interval: all of them
                 lines = rnd.sample(lines, c)
             with open(out[source], "a") as fh:
                 for l in lines:
@@ -273,7 +276,7 @@ def run(ctx):
     env = {"VERIF_IN": sel, "VERIF_IN_WATCH": watch, "VERIF_IN_SELECT_SELF": self_sel, "VERIF_IN_WATCH_SELF": self_watch,
            "VERIF_TRACE_OUT": trace, "VERIF_TRACE_SEGMENTS": segs, "VERIF_TRACE_PER_CLIENT": per, "VERIF_TRACE_WRITES": writes,
            "VERIF_TRACE_DIRECT": direct, "VERIF_TRACE_DIRECT_WRITES": dwrites,
-           "VERIF_IN_SRC_PATH": srcs["path"], "VERIF_IN_SRC_HTTP": srcs["http"], "VERIF_IN_FILE": files, "VERIF_IN_SRC_SELF": self_src}
+           "VERIF_IN_SRC_PATH": srcs["path"], "VERIF_IN_SRC_HTTP": srcs["http"], "VERIF_IN_SRC_CONSUL": srcs["consul"], "VERIF_IN_FILE": files, "VERIF_IN_SRC_SELF": self_src}
     r = harness(ctx, env, "C11 harness", timeout=ctx.pick(600, 1500))
     if r is None:
         return
@@ -282,9 +285,10 @@ def run(ctx):
             "%d direct GetCertificate calls (%d recorded), %d writes; %d failed, %.0fs"
             % (s["select_cases"], s["select_evals"], s["watch_cases"], s["watch_loads"], s["trace_handshakes"],
                s["trace_refused"], s["trace_direct_calls"], s["trace_direct_kept"], s["trace_writes"], s["fails"], r.wall))
-    ctx.log("real sources: path %d histories (%d loads, %d given up), http %d histories (%d loads), file %d cases; %d GetCertificate calls"
-            % (s["path_cases"], s["path_loads"], s["path_skipped"], s["http_cases"], s["http_loads"], s["file_cases"],
-               s["path_evals"] + s["http_evals"] + s["file_evals"]))
+    ctx.log("real sources: path %d histories (%d loads, %d given up), http %d histories (%d loads), consul %d histories (%d loads), "
+            "file %d cases; %d GetCertificate calls"
+            % (s["path_cases"], s["path_loads"], s["path_skipped"], s["http_cases"], s["http_loads"], s["consul_cases"], s["consul_loads"],
+               s["file_cases"], s["path_evals"] + s["http_evals"] + s["consul_evals"] + s["file_evals"]))
     ctx.take_failures(r, "c11")
     if s["path_skipped"] > s["path_cases"] // 10:
         ctx.inconclusive("real path source: %d of %d histories could not be stepped without letting the loader see a "
@@ -334,10 +338,10 @@ def run(ctx):
 
     ctx.cover("trace", states=v.distinct, transitions=v.generated)
     ctx.cover(traces_validated_against_impl=s["select_cases"] + s["watch_cases"] + accepted + s["path_cases"] - s["path_skipped"]
-              + s["http_cases"] + s["file_cases"],
+              + s["http_cases"] + s["consul_cases"] + s["file_cases"],
               evaluations=s["select_evals"] + s["watch_loads"] + s["trace_handshakes"] + s["trace_direct_calls"]
-              + s["path_evals"] + s["http_evals"] + s["file_evals"],
-              distinct_nontrivial=s["select_nontrivial"] + s["watch_nontrivial"] + s["path_nontrivial"] + s["http_nontrivial"],
+              + s["path_evals"] + s["http_evals"] + s["consul_evals"] + s["file_evals"],
+              distinct_nontrivial=s["select_nontrivial"] + s["watch_nontrivial"] + s["path_nontrivial"] + s["http_nontrivial"] + s["consul_nontrivial"],
               samples=(s.get("select_samples") or [])[:2] + (s.get("watch_samples") or [])[:2],
               rule="one case per certificate set TLC enumerated (x 16 names x strict), one per complete watcher history, "
                    "plus recorded concurrent handshake traces accepted by CertStore_Trace; non-trivial = sets of >=2 "
